@@ -126,6 +126,16 @@ reclaim('C06', 'Source tie (14 theorems, axiom-free): fp_tanimoto/dice/cosine/pe
         'equations of the dense and sparse Soergel kernels; stated with == and proved by ring/field so that algebraically equivalent rewrites of the Python expression still pass.',
         SRC_NOTE % ('C06', 'harness/facts_metricsrc.py', 'MetricsSource.v') + ' Python arithmetic is modelled in Base/PyExpr.v (option Q: None = ZeroDivisionError; nan_to_num; (num, den^2) for square roots).')
 reclaim('C08', None, SRC_NOTE % ('C08', 'harness/facts_dbio.py', 'DbIOFacts.v') + ' (theorem source_constants).')
+reclaim('C07', 'Source tie (8 theorems, axiom-free; Properties/C07Src.v): fp_fold_guards_match_source / db_fold_guards_match_source (the `if <test>: raise <Error>` guards of Fingerprint.fold and FingerprintDatabase.fold: same tests, '
+        'same exception classes, same ORDER as the source text), fp_fold_index_matches_source + fp_fold_index_src_in_range (the position map of both folding methods), db_fold_col_matches_source (the column expression handed to csr_matrix), '
+        'db_and_fp_guards_agree, shell_fold_identifier_matches_source (the folded identifier naming a substructure file), fold_zero_length.',
+        SRC_NOTE % ('C07', 'harness/facts_foldsrc.py', 'FoldSource.v') + ' np.log2(self.bits / bits).is_integer() is an opaque boolean parameter (read as pow2_ratio, characterised by pow2_ratio_spec); the copies of data/indptr, sum_duplicates, '
+        'the counts_method default and the fprint.fold(bits) tail of get_fingerprint_at_level are string guards of the translator only.')
+reclaim('C09', 'Source tie (3 theorems, axiom-free; Properties/C09Src.v): bit_eq_matches_source, count_eq_matches_source (the boolean structure of the expression returned by Fingerprint.__eq__ / CountFingerprint.__eq__ over five named atomic comparisons, '
+        'the class tested by the isinstance guard and the exception raised), ne_matches_source; proved by case analysis on the atoms, so reordering conjuncts passes while a dropped, added or negated conjunct fails.',
+        SRC_NOTE % ('C09', 'harness/facts_eqsrc.py', 'EqSource.v') + ' The five atoms are matched as exact text and read as option_eqb / Z.eqb / kind_eqb / list_eqb / cmap_eqb.')
+reclaim('C15', 'Histories with a pre-existing database file: outputs of one molecule lost while the database of an earlier run is still in place (re-run twice), and the same batch run four times into the same db_file in database-only mode (three input orders, with and without overwrite): the named fingerprints must not depend on what an earlier run left in db_file.', None)
+reclaim('C16', 'Batches of 1100 / 4200 / 9000 (thorough: up to 70000) fingerprints with one faulty member at the last and at a late position (length, level, missing property, sequence-valued property), on a deep copy of the target: slice-wise validation or commit is refused too late.', None)
 reclaim('C01', 'Search streams added after seeded rounds 3-4: all 24 (48 with stereo off) signed axis permutations - exact in floating point - of flat and gridded molecules run on the implementation; molecules scaled so that one '
         'pair distance is a relative 1e-3..1e-7 away from a shell radius (far outside round-off, sensitive to any lab-frame snapping of coordinates).', None)
 reclaim('C04', 'Histories switch between twins of one compound (copy, renumbered, reversed atom order); the same jobs incl. molecules with bond types outside the table are submitted in different orders to fresh interpreters.', None)
